@@ -7,7 +7,16 @@
    version when it was not fused, and an untouched, different object when it was.  So the
    state keeps, besides the result heap, `fobj`: input node -> index of "that same Python
    object" in the result heap.  When a node is fused its untouched object is appended too
-   (children may still refer to it); the fused node the callback returns is a new node.
+   (children may still refer to it).
+   The node the callback returns is either a NEW object or the object it was handed as
+   `current`, written IN PLACE (child.payload = ..., child.inputs = ...; return child): the
+   callback's answer carries that bit.  The source does not look at the identity of the
+   answer (any_fused is a flag of its own), but identity decides what the children of the
+   visited node see later: they still point to the visited OBJECT, which is untouched when
+   the fused node is a new object and IS the fused node when it was fused in place.  An
+   in-place write is a new version appended to the result heap (Engine.v); `self` is the
+   index of the current version of the visited object, `is_self` says whether `result` still
+   is that object.
    `fcalls` logs the candidates offered to the callback.  No proofs in this file. *)
 From Coq Require Import List String Bool Arith.
 From EKW Require Import Graph.GStore Graph.Engine.
@@ -17,8 +26,9 @@ Open Scope list_scope.
 
 Section Fuse.
 Variable P : Type.
-(* func(parent, parent_out, current, current_in) -> Node | None *)
-Variable func : node P -> string -> node P -> string -> option (node P).
+(* func(parent, parent_out, current, current_in) -> Node | None ; (true, nd) = the object
+   `current` itself, now holding nd; (false, nd) = a new object *)
+Variable func : node P -> string -> node P -> string -> option (bool * node P).
 
 Record fstate := mkF {
   fheap : list (node P);
@@ -30,21 +40,26 @@ Definition count_of (r : nat) (c : list (nat * nat)) : nat :=
   match lookupn r c with Some k => k | None => 0 end.      (* Counter: missing -> 0 *)
 
 (* the loop over inputs.items() *)
-Fixpoint fuse_inputs (cnt : list (nat * nat)) (h' : list (node P)) (cur : node P) (any : bool)
+Fixpoint fuse_inputs (cnt : list (nat * nat)) (h' : list (node P)) (cur : node P)
+         (self : nat) (is_self : bool) (any : bool)
          (calls : list (string * string * string * string))
          (inputs : list (string * (nat * string)))
-  : res (list (node P) * node P * bool * list (string * string * string * string)) :=
+  : res (list (node P) * node P * nat * bool * list (string * string * string * string)) :=
   match inputs with
-  | [] => Ok (h', cur, any, calls)
+  | [] => Ok (h', cur, self, any, calls)
   | (iname, (rp, oname)) :: rest =>
-      if Nat.ltb 1 (count_of rp cnt) then fuse_inputs cnt h' cur any calls rest
+      if Nat.ltb 1 (count_of rp cnt) then fuse_inputs cnt h' cur self is_self any calls rest
       else match nth_error h' rp with
            | None => Err "model:dangling"
            | Some pn =>
                let calls' := calls ++ [(nname pn, oname, nname cur, iname)] in
                match func pn oname cur iname with
-               | None => fuse_inputs cnt h' cur any calls' rest
-               | Some fused => fuse_inputs cnt (h' ++ [fused]) fused true calls' rest
+               | None => fuse_inputs cnt h' cur self is_self any calls' rest
+               | Some (inplace, fused) =>
+                   (* result = fused: the new version is the last node of the heap *)
+                   let is_self' := is_self && inplace in
+                   fuse_inputs cnt (h' ++ [fused]) fused
+                               (if is_self' then List.length h' else self) is_self' true calls' rest
                end
            end
   end.
@@ -60,12 +75,13 @@ Definition fuse_visit (st : fstate) (n : nat) (nd : node P)
   let cur0 := mkNode (nname nd) (nouts nd) (npay nd)
                      (map (fun x => (fst x, (obj_of (fobj st) (fst (snd x)), snd (snd x)))) (nins nd)) in
   let h0 := fheap st ++ [cur0] in
-  bind (fuse_inputs (fcount st) h0 cur0 false (fcalls st) inputs) (fun x =>
-  let '(h1, cur, any, calls) := x in
+  bind (fuse_inputs (fcount st) h0 cur0 (List.length (fheap st)) true false (fcalls st) inputs) (fun x =>
+  let '(h1, cur, self, any, calls) := x in
   if any then
-    (* self.counter[result] = self.counter[node] *)
+    (* self.counter[result] = self.counter[node]; node.inputs is NOT replaced: the visited
+       object stays as the callback left it *)
     let r := List.length h1 - 1 in
-    Ok (mkF h1 ((n, List.length (fheap st)) :: fobj st) ((r, orig_count n) :: fcount st) calls, r)
+    Ok (mkF h1 ((n, self) :: fobj st) ((r, orig_count n) :: fcount st) calls, r)
   else
     (* result.inputs = inputs : the visited object itself is written *)
     let r := List.length (fheap st) in
@@ -87,7 +103,7 @@ Definition consumer_count {P} (g : graph P) : res (nat -> nat) :=
   let ps := flat_map (fun x => parents (snd x)) ns in
   Ok (fun p => count_occ_nat p ps)).
 
-Definition fuse_nodes {P} (func : node P -> string -> node P -> string -> option (node P))
+Definition fuse_nodes {P} (func : node P -> string -> node P -> string -> option (bool * node P))
            (g : graph P) : res (graph P * list (string * string * string * string)) :=
   bind (consumer_count g) (fun oc =>
   bind (transform (fuse_visit func oc) fuse_output (heap g) (sinks g) (mkF [] [] [] []))
